@@ -313,3 +313,193 @@ Definition check_case (k : list (string * string) * list comp * (list obs * list
 (* the traversal alone, on arbitrary nested dictionaries: (value, buffer) *)
 Definition check_ser (k : jv * option string) : bool :=
   opt_eqb String.eqb (ser_jv (fst k)) (snd k).
+
+(* ---------------------------------------------------------------- shape of the file entries.
+   strong (and fuzzy, for a file that no component made):  <digest>:<method>
+   fuzzy, file made by a component:                         fuzzy#<digest>#<path below the producer>:<method>
+   digest = 32 lower-case hexadecimal characters (hashlib md5().hexdigest()); method = one of
+   FlowIR.data_reference_methods; the path contains no ':' (a reference has exactly one). *)
+Definition is_hex (a : ascii) : bool :=
+  is_digit a || (let n := nat_of_ascii a in Nat.leb 97 n && Nat.leb n 102).
+Definition hex32 (h : string) : bool := Nat.eqb (String.length h) 32 && all_chars is_hex h.
+Definition METHODS : list string :=
+  ["copy"; "link"; "ref"; "copyout"; "extract"; "output"; "loopref"; "loopoutput"].
+Definition mem (m : string) (l : list string) : bool := existsb (String.eqb m) l.
+Definition not_colon (a : ascii) : bool := negb (Ascii.eqb a ":").
+
+Definition wf_strong (e : string) : bool :=
+  hex32 (take 32 e) && prefixb ":" (drop 32 e) && mem (drop 33 e) METHODS.
+Definition wf_fuzzy (e : string) : bool :=
+  prefixb "fuzzy#" e &&
+  (let r := drop 6 e in
+   hex32 (take 32 r) && prefixb "#" (drop 32 r) &&
+   match split1 ":" (drop 33 r) with Some (_, m) => mem m METHODS | None => false end).
+Definition wf_entry (e : string) : bool := wf_strong e || wf_fuzzy e.
+Definition wf_files (l : list string) : bool := forallb wf_entry l.
+
+(* what the file list of a component is well-formed under: md5 gives digests (on the contents read and on
+   the buffers hashed), methods are reference methods, paths below a producer contain no ':' *)
+Definition wf_ref (r : dref) : bool := mem (d_method r) METHODS && all_chars not_colon (d_fileref r).
+
+(* ---------------------------------------------------------------- the argument string at character level.
+   The code rewrites the argument string once per data reference d (longest absolute reference first):
+     pattern = re.compile(r'\b' + re.escape(original_reference) + r'\b');  arguments = re.sub(pattern, replacement, arguments)
+   where original_reference is the absolute or else the relative spelling of d, whichever
+   FlowIR.discover_reference_strings found in the arguments (none: d is skipped).
+   [resub] is that re.sub: left-most non-overlapping occurrences of the literal text ref that have a word
+   boundary at both ends (\b: exactly one of the two neighbouring characters is a word character
+   [a-zA-Z0-9_]; the ends of the string count as non-word).
+   Inputs that are NOT modelled and are handed to the model as oracles by the correspondence run: the list of
+   strings discover_reference_strings returns for the argument string ([disc]) and the order in which the
+   code visits the references ([order], indices into c_refs). *)
+Definition is_lower (a : ascii) : bool := let n := nat_of_ascii a in Nat.leb 97 n && Nat.leb n 122.
+Definition is_word (a : ascii) : bool := is_digit a || is_upper a || is_lower a || Ascii.eqb a "_".
+Definition headw (s : string) : bool := match s with "" => false | String c _ => is_word c end.
+Fixpoint lastw (s : string) : bool :=
+  match s with "" => false | String c t => match t with "" => is_word c | _ => lastw t end end.
+Fixpoint after_prefix (p s : string) : option string :=
+  match p with
+  | "" => Some s
+  | String a p' => match s with
+                   | "" => None
+                   | String b s' => if Ascii.eqb a b then after_prefix p' s' else None
+                   end
+  end.
+(* does \b ref \b match at the head of s, when the previous character is a word character iff prev *)
+Definition match_here (ref : string) (prev : bool) (s : string) : bool :=
+  match after_prefix ref s with
+  | Some rest => xorb prev (headw ref) && xorb (lastw ref) (headw rest)
+  | None => false
+  end.
+Fixpoint resub_aux (ref rep : string) (skip : nat) (prev : bool) (s : string) : string :=
+  match s with
+  | "" => ""
+  | String c s' =>
+      match skip with
+      | S k => resub_aux ref rep k (is_word c) s'
+      | O => if match_here ref prev s then rep ++ resub_aux ref rep (String.length ref - 1) (is_word c) s'
+             else String c (resub_aux ref rep 0 (is_word c) s')
+      end
+  end.
+Definition resub (ref rep s : string) : string :=
+  match ref with "" => s (* never called with "" *) | _ => resub_aux ref rep 0 false s end.
+
+Definition rewrite_all (subs : list (string * string)) (s : string) : string :=
+  fold_left (fun acc sr => resub (fst sr) (snd sr) acc) subs s.
+
+(* the argument string as written: reference tokens by their spelling *)
+Definition tok_text (rs : list dref) (t : tok) : string :=
+  match t with TLit s => s | TRef i => match nth_error rs i with Some r => d_text r | None => "" end end.
+Definition render (rs : list dref) (ts : list tok) : string := cat (map (tok_text rs) ts).
+
+Section Chars.
+Variable md5 : string -> string.
+
+(* the spelling the code looks for *)
+Definition orig_ref (disc : list string) (r : dref) : option string :=
+  if mem (d_key r) disc then Some (d_key r) else if mem (d_text r) disc then Some (d_text r) else None.
+
+(* the replacement of one reference: None = the code raises; Some None = left alone *)
+Definition subst_of (fuzzy : bool) (ph : nat -> option string) (r : dref) : option (option string) :=
+  match entry_of md5 fuzzy ph r with
+  | EKeep h => Some (Some ("file:" ++ h ++ ":" ++ d_method r))
+  | EFail => None
+  | ESkip => match d_prod r with
+             | Some p => match ph p with
+                         | Some h => Some (Some ((if fuzzy then "fuzzy:" else "producer:") ++ h ++ ":" ++ d_method r))
+                         | None => None
+                         end
+             | None => Some None
+             end
+  end.
+
+Fixpoint subs_of (fuzzy : bool) (ph : nat -> option string) (disc : list string) (rs : list dref) (order : list nat)
+  : option (list (string * string)) :=
+  match order with
+  | [] => Some []
+  | j :: t =>
+      match nth_error rs j with
+      | None => subs_of fuzzy ph disc rs t
+      | Some r =>
+          match orig_ref disc r with
+          | None => subs_of fuzzy ph disc rs t
+          | Some o => match subst_of fuzzy ph r with
+                      | None => None
+                      | Some None => subs_of fuzzy ph disc rs t
+                      | Some (Some rep) => option_map (cons (o, rep)) (subs_of fuzzy ph disc rs t)
+                      end
+          end
+      end
+  end.
+
+Definition args_chars (fuzzy : bool) (ph : nat -> option string) (disc : list string) (order : list nat) (c : comp)
+  : option string :=
+  option_map (fun subs => rewrite_all subs (render (c_refs c) (c_args c))) (subs_of fuzzy ph disc (c_refs c) order).
+
+Definition info_of_chars (fuzzy : bool) (ph : nat -> option string) (disc : list string) (order : list nat) (c : comp)
+  : option info :=
+  match files_of md5 fuzzy ph (c_refs c), args_chars fuzzy ph disc order c with
+  | Some fs, Some a => Some {| i_files := fs; i_exe := c_exe c; i_args := a; i_image := image_of (c_backend c) |}
+  | _, _ => None
+  end.
+
+Fixpoint infos_chars_acc (fuzzy : bool) (acc : list (option info)) (g : list (comp * (list string * list nat)))
+  : list (option info) :=
+  match g with
+  | [] => acc
+  | (c, (disc, order)) :: t => infos_chars_acc fuzzy (acc ++ [info_of_chars fuzzy (ph_of md5 acc) disc order c]) t
+  end.
+Definition infos_chars (fuzzy : bool) (g : list (comp * (list string * list nat))) : list (option info) :=
+  infos_chars_acc fuzzy [] g.
+
+(* ---- blank-delimited arguments: tokens separated by single blanks *)
+Fixpoint blanks (ws : list tok) : list tok :=
+  match ws with
+  | [] => []
+  | w :: r => match r with [] => [w] | _ => w :: TLit " " :: blanks r end
+  end.
+Definition not_blank (a : ascii) : bool := negb (Ascii.eqb a " ").
+Definition blank_free (s : string) : bool := all_chars not_blank s.
+(* one word alone: the character-level rewriting of its text gives what the token model gives *)
+Definition word_ok (fuzzy : bool) (ph : nat -> option string) (rs : list dref) (subs : list (string * string)) (w : tok) : bool :=
+  match tok_str md5 fuzzy ph rs w with
+  | Some v => String.eqb (rewrite_all subs (tok_text rs w)) v
+  | None => false
+  end.
+Definition subs_ok (subs : list (string * string)) : bool :=
+  forallb (fun sr => blank_free (fst sr)) subs.   (* a reference contains no blank *)
+Definition delimited (fuzzy : bool) (ph : nat -> option string) (disc : list string) (order : list nat) (c : comp)
+  (ws : list tok) : bool :=
+  match subs_of fuzzy ph disc (c_refs c) order with
+  | Some subs => subs_ok subs && forallb (word_ok fuzzy ph (c_refs c) subs) ws
+  | None => false
+  end.
+End Chars.
+
+(* the words of a token list of the form [blanks ws] *)
+Fixpoint unblanks (ts : list tok) : list tok :=
+  match ts with
+  | [] => []
+  | w :: r => w :: match r with [] => [] | _ :: r' => unblanks r' end
+  end.
+Definition tok_eqb (a b : tok) : bool :=
+  match a, b with TLit x, TLit y => String.eqb x y | TRef i, TRef j => Nat.eqb i j | _, _ => false end.
+
+(* case = (md5 table, graph with oracles, (strong observations, fuzzy observations)): the character-level
+   model against the implementation, and, where the arguments are blank-delimited, the token model too *)
+Definition delimited_comp (md5 : string -> string) (fuzzy : bool) (ph : nat -> option string)
+  (x : comp * (list string * list nat)) : bool :=
+  let '(c, (disc, order)) := x in
+  list_eqb tok_eqb (c_args c) (blanks (unblanks (c_args c))) && delimited md5 fuzzy ph disc order c (unblanks (c_args c)).
+Definition check_case_chars (k : list (string * string) * list (comp * (list string * list nat)) * (list obs * list obs)) : bool :=
+  let '(tbl, g, (os, of)) := k in
+  all2 (obs_matches tbl) (infos_chars (tbl_md5 tbl) false g) os &&
+  all2 (obs_matches tbl) (infos_chars (tbl_md5 tbl) true g) of.
+(* the same case restricted to the token model (used for the worlds the harness builds blank-delimited) *)
+Definition check_case_tokens (k : list (string * string) * list (comp * (list string * list nat)) * (list obs * list obs)) : bool :=
+  let '(tbl, g, o) := k in check_case (tbl, map fst g, o).
+(* re.sub alone: (reference, replacement, text, result) *)
+Definition check_resub (k : string * string * string * string) : bool :=
+  let '(ref, rep, s, out) := k in String.eqb (resub ref rep s) out.
+Definition check_case_both (k : list (string * string) * list (comp * (list string * list nat)) * (list obs * list obs)) : bool :=
+  check_case_chars k && check_case_tokens k.
